@@ -54,6 +54,13 @@ class FIter(C.Structure):
                 ("index", C.c_size_t), ("size", C.c_size_t), ("multi", C.c_void_p)]
 
 
+class FArr(C.Structure):
+    _fields_ = [("ndims", C.c_int), ("datatype", C.c_int)] + \
+               [(n_, C.c_size_t) for n_ in ("dimX", "dimY", "dimZ", "dimT", "offsetX", "offsetY", "offsetZ",
+                                            "offsetT", "boX", "boY", "boZ", "boT")] + \
+               [("data", C.c_void_p), ("owner", C.c_int), ("get", C.c_void_p), ("set", C.c_void_p)]
+
+
 _FFFPY = None
 
 
@@ -125,6 +132,11 @@ def fffpy():
     lib.fff_permutation.argtypes = [C.POINTER(C.c_uint), C.c_uint, C.c_ulong]
     lib.fff_combination.argtypes = [C.POINTER(C.c_uint), C.c_uint, C.c_uint, C.c_ulong]
     lib.fff_mahalanobis.restype = C.c_double; lib.fff_mahalanobis.argtypes = [PV, PM, PM]
+    lib.fff_array_fromPyArray.restype = C.POINTER(FArr); lib.fff_array_fromPyArray.argtypes = [C.py_object]
+    lib.fff_array_get_block.restype = FArr
+    lib.fff_array_get_block.argtypes = [C.POINTER(FArr)] + [C.c_size_t] * 12
+    lib.fff_array_get.restype = C.c_double
+    lib.fff_array_get.argtypes = [C.POINTER(FArr)] + [C.c_size_t] * 4
     lib.fff_array_new.restype = C.c_void_p
     lib.fff_array_new.argtypes = [C.c_int] + [C.c_size_t] * 4
     lib.fff_array_delete.argtypes = [C.c_void_p]
@@ -279,8 +291,6 @@ class C16(PropertyCheck):
                   "distinctness and the special functions / LAPACK results are oracle-checked, not proved")
     finding_keys = {
         "vector-div-multiplies": "labs.bindings.linalg.vector_div(x, y) returns x*y (linalg.pyx calls fff_vector_mul)",
-        "array-get-block-ft": "labs.bindings.array.array_get_block on a 4-D array with fT != fZ: fff_array_get_block sizes "
-                              "the T axis with fZ (lib/fff/fff_array.c:339); observed through the installed build only",
     }
 
     # ------------------------------------------------------------------
@@ -338,7 +348,7 @@ class C16(PropertyCheck):
                           "lc": rng.choice(["C", "F", "offset"]), "seed": S()})
         for _ in range(n["vecops"]):
             cases.append({"kind": "vecops", "n": rng.choice([1, 2, 3, 4, 6, 9]),
-                          "shape4": [rng.choice([1, 2, 3]) for _ in range(rng.choice([1, 2, 3, 4]))],
+                          "shape4": [rng.choice([1, 2, 3, 4, 5]) for _ in range(rng.choice([1, 2, 3, 4, 4]))],
                           "lx": rng.choice(["C", "step2", "rev", "offset", "col"]),
                           "ly": rng.choice(["C", "step2", "rev"]),
                           "la": rng.choice(LAYOUTS),
@@ -813,12 +823,30 @@ class C16(PropertyCheck):
         chk("wrapper.pass_array", W.pass_array(A), Af, squeeze=True)
         idx = [int(rs.randint(s)) for s in sh]
         chk("array.array_get", AR.array_get(A, *idx), Af[tuple(idx)])
-        blk, sl = [], []
-        for s in sh:
-            i0 = int(rs.randint(s)); i1 = int(rs.randint(i0, s)); f = int(rs.randint(1, 3))
-            blk += [i0, i1, f]; sl.append(slice(i0, i1 + 1, f))
-        chk("array.array_get_block", AR.array_get_block(A, *blk), Af[tuple(sl)],
-            "array-get-block-ft" if (len(sh) == 4 and blk[11] != blk[8]) else None, squeeze=True)
+        # fff_array_get_block / fff_array_get: the C of the working tree (rebuilt), through the glue of
+        # array.pyx (fromPyArray -> get_block -> element reads); never through the installed build
+        fa = lib.fff_array_fromPyArray(A)
+        for _ in range(4):
+            blk, sl = [], []
+            for s in sh:
+                i0 = int(rs.randint(s)); i1 = int(rs.randint(i0, s)); f = int(rs.randint(1, 4))
+                blk += [i0, i1, f]; sl.append(slice(i0, i1 + 1, f))
+            blk4 = blk + [0, 0, 1] * (4 - len(sh))
+            sub = lib.fff_array_get_block(fa, *blk4)
+            dims = (sub.dimX, sub.dimY, sub.dimZ, sub.dimT)
+            want = Af[tuple(sl)].reshape([len(range(*s_.indices(n_))) for s_, n_ in zip(sl, sh)] + [1] * (4 - len(sh)))
+            if dims != want.shape:
+                fails.append((None, f"fff_array_get_block(shape={sh}, block (x0,x1,fX,...)={blk4}) has dims {dims}, the strided block A["
+                                    + ", ".join(f"{a_}:{b_ + 1}:{c_}" for a_, b_, c_ in zip(blk4[0::3], blk4[1::3], blk4[2::3]))
+                                    + f"] has shape {want.shape}"))
+            else:
+                got = np.array([lib.fff_array_get(C.byref(sub), *ix) for ix in
+                                itertools.product(*[range(d_) for d_ in dims])]).reshape(dims)
+                chk(f"fff_array_get_block(shape={sh}, block={blk4})", got, want)
+        full4 = Af.reshape(list(sh) + [1] * (4 - len(sh)))
+        ix = tuple(idx) + (0,) * (4 - len(sh))
+        chk("fff_array_get", lib.fff_array_get(fa, *ix), full4[ix])
+        lib.fff_array_delete(fa)
         if len(sh) == 2:
             chk("linalg.matrix_transpose", L.matrix_transpose(A), Af.T)
             chk("linalg.matrix_add", L.matrix_add(A, B), Af + B0)
@@ -1171,8 +1199,6 @@ class C16(PropertyCheck):
     def classify(self, case, failure):
         if case.get("kind") == "vecops" and "linalg.vector_div =" in failure:
             return "vector-div-multiplies"
-        if case.get("kind") == "vecops" and "array.array_get_block =" in failure and len(case["shape4"]) == 4:
-            return "array-get-block-ft"
         return None
 
 
